@@ -290,6 +290,9 @@ func trunc(s string, n int) string {
 
 func (r *Run) writeReplay(v *Violation) string {
 	dir := filepath.Join(r.Root, "replays", r.ID)
+	if alt := os.Getenv("VERIF_EVIDENCE_DIR"); alt != "" { // scratch runs (mutants) keep out of the real artefacts
+		dir = filepath.Join(alt, "replays", r.ID)
+	}
 	os.MkdirAll(dir, 0755)
 	h := fnv.New64a()
 	h.Write([]byte(v.Sig))
@@ -351,6 +354,9 @@ func (r *Run) writeEvidence(nNew, nKnown int) {
 		out["assumptions"] = []string{}
 	}
 	dir := filepath.Join(r.Root, "evidence")
+	if alt := os.Getenv("VERIF_EVIDENCE_DIR"); alt != "" {
+		dir = alt
+	}
 	os.MkdirAll(dir, 0755)
 	bs, _ := json.MarshalIndent(out, "", " ")
 	ioutil.WriteFile(filepath.Join(dir, r.ID+".json"), append(bs, '\n'), 0644)
